@@ -275,12 +275,12 @@ def spec_value(info, t):
     if t < 0:
         return info.start
     last = info.pieces[-1]
-    if t > last[1]:
+    if t > Fr(last[1]):
         return spec_end(info)
     for (a, b, co) in info.pieces:
-        if t < b:
-            return poly_eval(co, t - a)
-    return poly_eval(last[2], t - last[0])
+        if t < Fr(b):
+            return poly_eval(co, t - Fr(a))
+    return poly_eval(last[2], t - Fr(last[0]))
 
 
 def spec_end(info):
@@ -290,7 +290,7 @@ def spec_end(info):
     if not info.pieces:
         return info.start
     a, b, co = info.pieces[-1]
-    return poly_eval(co, b - a)
+    return poly_eval(co, Fr(b) - Fr(a))
 
 
 def isqrt_fr(x, digits=40):
@@ -324,9 +324,9 @@ def spec_arclength(info, t):
     n = len(info.start)
     tot = [Fr(0)] * n
     for (a, b, co) in info.pieces:
-        if t <= a:
+        if t <= Fr(a):
             break
-        hi = min(b, t) - a
+        hi = min(Fr(b), t) - Fr(a)
         for k in range(n):
             q = [co[1][k] if len(co) > 1 else Fr(0), 2 * co[2][k] if len(co) > 2 else Fr(0),
                  3 * co[3][k] if len(co) > 3 else Fr(0)]
@@ -370,7 +370,7 @@ def interpret(sc):
                 V = [frs(x[1 + j * dof:1 + (j + 1) * dof]) for j in range(K)]
                 ga = frs(x[1 + K * dof:])
                 I.start, I.absok = ga, True
-                I.pieces = [(Fr(0), Fr(T), seg_poly(B, K, Fr(T), V, ga))]
+                I.pieces = [(0.0, T, seg_poly(B, K, Fr(T), V, ga))]
         elif s.op == 'cv':
             T = w2f(x[dof])
             if T > 0:
@@ -379,7 +379,7 @@ def interpret(sc):
                 v, ga = frs(x[:dof]), frs(x[dof + 1:])
                 I.start, I.absok = ga, True
                 if T > 0:
-                    I.pieces = [(Fr(0), Fr(T), [ga, v])]
+                    I.pieces = [(0.0, T, [ga, v])]
                 else:
                     I.start = G.ident()
         elif s.op == 'cvgoal':
@@ -388,7 +388,7 @@ def interpret(sc):
             if vec:
                 gb, ga = frs(x[:rep]), frs(x[rep + 1:])
                 I.start, I.absok = ga, True
-                I.pieces = [(Fr(0), Fr(T), [ga, [(b - a) / Fr(T) for a, b in zip(ga, gb)]])]
+                I.pieces = [(0.0, T, [ga, [(b - a) / Fr(T) for a, b in zip(ga, gb)]])]
         elif s.op == 'fixedcubic':
             T = w2f(x[rep + 2 * dof])
             I.knots, I.rate = [T], 1.0 / T
@@ -399,7 +399,7 @@ def interpret(sc):
                 V2 = [Fr(T) * a / 3 for a in vb]
                 V1 = [b - a - p - q for a, b, p, q in zip(ga, gb, V0, V2)]
                 I.start, I.absok = ga, True
-                I.pieces = [(Fr(0), Fr(T), seg_poly(B, K, Fr(T), [V0, V1, V2], ga))]
+                I.pieces = [(0.0, T, seg_poly(B, K, Fr(T), [V0, V1, V2], ga))]
         elif s.op in ('concat_local', 'concat_global'):
             a, b = info[s.regs[1]], info[s.regs[2]]
             t1 = a.tmax()
@@ -415,10 +415,10 @@ def interpret(sc):
                 if s.op == 'concat_local':
                     ea = spec_end(a)
                     I.start = a.start if a.pieces else [p + q for p, q in zip(a.start, b.start)]
-                    I.pieces = list(a.pieces) + [(pa + Fr(t1), pb + Fr(t1), poly_translate(co, ea)) for (pa, pb, co) in b.pieces]
+                    I.pieces = list(a.pieces) + [(t1 + pa, t1 + pb, poly_translate(co, ea)) for (pa, pb, co) in b.pieces]
                 else:
                     I.start = a.start if a.pieces else b.start
-                    I.pieces = list(a.pieces) + [(pa + Fr(t1), pb + Fr(t1), co) for (pa, pb, co) in b.pieces]
+                    I.pieces = list(a.pieces) + [(t1 + pa, t1 + pb, co) for (pa, pb, co) in b.pieces]
                 # the code's knots are the rounded sums; the exact curve uses exact sums (difference ≤ ulp)
         elif s.op == 'crop':
             a = info[s.regs[1]]
@@ -438,9 +438,10 @@ def interpret(sc):
                     I.endv = [p + q for p, q in zip(spec_value(a, Fr(tbc)), off)]
                     I.start = [Fr(0)] * rep if s.flag else g_a
                     for (pa, pb, co) in a.pieces:
-                        lo, hi = max(pa, Fr(tac)), min(pb, Fr(tbc))
+                        lo, hi = max(pa, tac), min(pb, tbc)
                         if hi > lo:
-                            I.pieces.append((lo - Fr(tac), hi - Fr(tac), poly_translate(poly_shift(co, lo - pa), off)))
+                            # boundaries are the code's knots: rounded differences (m_end_t[i] - ta, tb - ta)
+                            I.pieces.append((lo - tac, hi - tac, poly_translate(poly_shift(co, Fr(lo) - Fr(pa)), off)))
             else:
                 I.start, I.absok = G.ident(), vec
         elif s.op == 'make_local':
@@ -723,8 +724,6 @@ class Audit:
             if st is not None and not self.is_ident(ga) and self.is_ident(st):
                 self.obs.append('ConstantVelocity(v, T<=0, ga) returns Spline(): start() is the identity, not ga')
             return key
-        if self.sc.K != 3:
-            self.absok[d] = False
         self.ctor_common(W, s, d, ga, s.op)
         gaf = self.fr(ga)
         for tw, t, (g, vel, acc) in self.evals_of(d):
@@ -840,6 +839,16 @@ class Audit:
         if not tbc > tac:
             self.cnt('crop_empty')
             return {'kind': 'crop', 'case': 'empty'}
+        ks = [0.0] + Id.knots
+        if min(b - a for a, b in zip(ks, ks[1:])) < 1e-3:
+            # a result segment shorter than the property's duration range 1e-3..1e3 (crop point within an ulp
+            # of a knot, possibly absorbed to length zero by `m_end_t[i] - ta`): outside the domain of the
+            # laws; compared with the model (T1) only, and not trusted downstream
+            self.taint[d] = True
+            self.cnt('crop_result_has_subrange_segment')
+            if any(not self.finite(e[0]) for (_, _, e) in self.evals_of(d)):
+                self.obs.append('crop point within 1 ulp of a knot: zero-length segment, evaluation at its end returns NaN (0/0)')
+            return {'kind': 'crop', 'case': 'subrange-segment'}
         i0 = sum(1 for k in Ia.knots if k <= tac)
         onknot = tac in Ia.knots
         Ea, Eb = self.ev.get((a, f2w(tac))), self.ev.get((a, f2w(tbc)))
@@ -888,9 +897,6 @@ class Audit:
                 self.cmp_v(W, 'crop_vel', vel, Ex[1], Id.rate, 64 * EPS * tsc * amax, f'crop[{case}]: velocity at t={t!r} is {vel}, x velocity {Ex[1]}')
                 self.cmp_v(W, 'crop_acc', acc, Ex[2], Id.rate ** 2, 64 * EPS * tsc * amax * Id.rate * self.sc.K,
                            f'crop[{case}]: acceleration at t={t!r} is {acc}, x acceleration {Ex[2]}')
-        if case != 'first-segment':
-            self.taint[d] = True     # announced-defect configuration: the result is not trusted downstream
-            self.cnt('crop_tainted_by_configuration')
         return key
 
     def law_make_local(self, W, s, d, rm, ex):
@@ -1063,9 +1069,32 @@ def closure_remove(stmts, drop):
     return out
 
 
-def shrink(bins, sc, pred, budget=160):
+def cone_prune(stmts, stmt_text):
+    """keep only what the operation `stmt_text` depends on, and the probes of those registers"""
+    target = None
+    for s in stmts:
+        if not s.is_probe() and s.text() == stmt_text:
+            target = s
+    if target is None:
+        return stmts
+    need = {target.regs[0]}
+    for s in reversed(stmts):
+        if not s.is_probe() and s.regs[0] in need:
+            need.update(s.regs[1:])
+    return [s for s in stmts if (s.regs[0] in need if not s.is_probe() else s.regs[0] in need)]
+
+
+def shrink(bins, sc, pred, budget=160, focus=None):
     """ddmin over statements; `pred(script_with_outputs)` must stay true"""
     cur = sc.stmts
+    if focus:
+        cand = cone_prune(cur, focus)
+        if len(cand) < len(cur):
+            try:
+                if pred(harness_eval(bins, [sc.with_stmts(cand)])[0]):
+                    cur = cand
+            except Exception:
+                pass
     n = 2
     used = 0
     while len(cur) >= 2 and used < budget:
@@ -1113,8 +1142,9 @@ def _w(*xs):
 
 
 def witness_scripts(basis):
-    """the ℚ-witnesses of the negation theorems, as scripts on Spline<K,double> (K=1: c(u) = u·v exactly).
-    `lean` = value proved for the model over ℚ, `spec` = value the property demands."""
+    """regression scripts of the four defects fixed by ea1d6c4 / b6aa840 / 05ac857 (formerly the ℚ-witnesses
+    of negation theorems), on Spline<K,double> (K=1: c(u) = u·v exactly).  `lean` = value of the Lean model
+    (= the value the property demands since the fixes), `before_fix` = what the unfixed code returned."""
     x = [Stmt('ctor_V', [0], _w(1, 1, 0)), Stmt('ctor_V', [1], _w(1, 2, 0)), Stmt('concat_local', [2, 0, 1], [])]
 
     def crop(ta, tb, loc, ts):
@@ -1125,15 +1155,15 @@ def witness_scripts(basis):
             st += [Stmt('eval', [3], _w(t)), Stmt('eval', [2], _w(ta + t))]
         return st
     W = []
-    W.append({'name': 'crop_wrong_later_segment', 'K': 1, 'stmts': crop(1.25, 1.75, 1, [0.25]),
-              'probe': 'eval r3 ' + f2w(0.25), 'lean': -0.75, 'spec': 0.5, 'key': {'kind': 'crop', 'case': 'later-segment'}})
-    W.append({'name': 'crop_wrong_nonlocal_multiseg', 'K': 1, 'stmts': crop(0.5, 1.5, 0, [0.75]),
-              'probe': 'eval r3 ' + f2w(0.75), 'lean': 1.0, 'spec': 1.5, 'key': {'kind': 'crop', 'case': 'nonlocal-multiseg'}})
-    W.append({'name': 'crop_wrong_on_knot', 'K': 1, 'stmts': crop(1.0, 1.5, 1, [0.25]),
-              'probe': 'eval r3 ' + f2w(0.25), 'lean': 'nan (0/0; the ℚ model with x/0 = 0 gives 0)', 'spec': 0.5,
+    W.append({'name': 'crop_later_segment', 'K': 1, 'stmts': crop(1.25, 1.75, 1, [0.25]),
+              'probe': 'eval r3 ' + f2w(0.25), 'lean': 0.5, 'spec': 0.5, 'before_fix': -0.75, 'key': {'kind': 'crop', 'case': 'later-segment'}})
+    W.append({'name': 'crop_nonlocal_multiseg', 'K': 1, 'stmts': crop(0.5, 1.5, 0, [0.75]),
+              'probe': 'eval r3 ' + f2w(0.75), 'lean': 1.5, 'spec': 1.5, 'before_fix': 1.0, 'key': {'kind': 'crop', 'case': 'nonlocal-multiseg'}})
+    W.append({'name': 'crop_on_knot', 'K': 1, 'stmts': crop(1.0, 1.5, 1, [0.25]),
+              'probe': 'eval r3 ' + f2w(0.25), 'lean': 0.5, 'spec': 0.5, 'before_fix': 'nan',
               'key': {'kind': 'crop', 'case': 'knot'}})
     cv = [Stmt('cv', [0], _w(1, 3, 0))] + [Stmt(p, [0], []) for p in ('size', 't_max', 'start', 'end')] + [Stmt('eval', [0], _w(3))]
-    W.append({'name': 'constant_velocity_wrong_K', 'K': 2, 'stmts': cv, 'probe': 'end r0', 'lean': 2.0, 'spec': 3.0,
+    W.append({'name': 'constant_velocity_K2', 'K': 2, 'stmts': cv, 'probe': 'end r0', 'lean': 3.0, 'spec': 3.0, 'before_fix': 2.0,
               'key': {'kind': 'constant_velocity'}})
     for w in W:
         w['script'] = Script('T1', w['K'], basis[w['K']], w['stmts'], None, 'witness ' + w['name'])
@@ -1150,13 +1180,12 @@ def run_witnesses(bins):
         scripts.append(sc)
         idx = [s.text() for s in sc.probes()].index(w['probe'])
         obs = w2f(sc.outs[idx][0])
-        ok = (math.isnan(obs) if isinstance(w['lean'], str) else obs == w['lean'])
-        rep.append({'theorem': 'C12.' + w['name'], 'script': sc.request(), 'probe': w['probe'], 'observed': repr(obs),
-                    'lean_model_value': w['lean'], 'property_value': w['spec'], 'implementation_equals_lean_witness': ok})
+        ok = obs == w['lean']
+        rep.append({'regression': w['name'], 'script': sc.request(), 'probe': w['probe'], 'observed': repr(obs),
+                    'lean_model_value': w['lean'], 'property_value': w['spec'], 'value_before_fix': w['before_fix'],
+                    'implementation_equals_lean_value': ok})
         if not ok:
-            broken.append({'what': 'correspondence', 'name': f"witness C12.{w['name']}: implementation returns {obs!r}, the Lean model proves {w['lean']}"
-                           + (' — the implementation now returns the value the property demands: the defect looks FIXED, update model + theorem'
-                              if obs == w['spec'] else ''),
+            broken.append({'what': 'correspondence', 'name': f"regression {w['name']}: implementation returns {obs!r}, the Lean model and the property give {w['lean']}",
                            'first': {'line': sc.line()}})
     return rep, broken, scripts
 
@@ -1185,6 +1214,10 @@ class C12:
         if self._bins is None:
             self._bins = vlib.build_harnesses(specs())
         return self._bins
+
+    def prebuild(self):
+        """compile the five harness binaries (content-hash cache) — called by tools/prebuild.py at setup"""
+        self.bins()
 
     def generate(self, ctx, n):
         bins = self.bins()
@@ -1218,7 +1251,7 @@ class C12:
             f = dict(fs[0], count=len(fs))
             if do_shrink:
                 try:
-                    s2 = shrink(bins, Script.from_line(f['line']), pred_finding(f['key']), budget=80)
+                    s2 = shrink(bins, Script.from_line(f['line']), pred_finding(f['key']), budget=80, focus=f.get('stmt'))
                     f['shrunk'] = s2.line()
                     r2 = check_scripts([s2])
                     f['shrunk_what'] = [g['what'] for g in r2['findings']][:3]
